@@ -51,7 +51,7 @@ def above(candles: List[Candle], indicator: str, indicator_two: str, index: int 
     reading_one = reading_by_index(candles, indicator, index)
     reading_two = reading_by_index(candles, indicator_two, index)
 
-    if reading_one is not None and reading_two is not None:
+    if isinstance(reading_one, (float, int)) and isinstance(reading_two, (float, int)):
         return reading_one > reading_two
     return False
 
@@ -223,15 +223,12 @@ def highestbar(
     high = None
     distance = 0
 
-    for idx, index in enumerate(range(index_, index_ - length, -1)):
+    for idx, index in enumerate(range(index_, max(index_ - length, -1), -1)):
         current = reading_by_index(candles, indicator, index)
-        if current is None:
+        if not isinstance(current, (float, int)):
             continue
 
-        if high is None:
-            high = current
-
-        if high < current:
+        if high is None or high < current:
             high = current
             distance = idx
 
@@ -252,15 +249,12 @@ def lowestbar(
     low = None
     distance = 0
 
-    for idx, index in enumerate(range(index_, index_ - length, -1)):
+    for idx, index in enumerate(range(index_, max(index_ - length, -1), -1)):
         current = reading_by_index(candles, indicator, index)
-        if current is None:
+        if not isinstance(current, (float, int)):
             continue
 
-        if low is None:
-            low = current
-
-        if low > current:
+        if low is None or low > current:
             low = current
             distance = idx
 
@@ -276,11 +270,17 @@ def cross(
     if index_ is None:
         return False
 
-    for idx in range(index_, index_ - length, -1):
+    for idx in range(index_, max(index_ - length, 0), -1):
         reading_one = reading_by_index(candles, indicator_two, idx)
         reading_two = reading_by_index(candles, indicator_one, idx)
         prev_one = reading_by_index(candles, indicator_one, idx - 1)
         prev_two = reading_by_index(candles, indicator_two, idx - 1)
+
+        if not all(
+            isinstance(reading, (float, int))
+            for reading in (reading_one, reading_two, prev_one, prev_two)
+        ):
+            continue
 
         if (reading_one < reading_two and prev_one <= prev_two) or (
             reading_one > reading_two and prev_one >= prev_two
@@ -300,7 +300,7 @@ def crossover(
     if index_ is None:
         return False
 
-    for idx in range(index_, index_ - length, -1):
+    for idx in range(index_, max(index_ - length, 0), -1):
         if above(candles, indicator_one, indicator_two, idx) and below(
             candles, indicator_one, indicator_two, idx - 1
         ):
@@ -319,7 +319,7 @@ def crossunder(
     if index_ is None:
         return False
 
-    for idx in range(index_, index_ - length, -1):
+    for idx in range(index_, max(index_ - length, 0), -1):
         if below(candles, indicator_one, indicator_two, idx) and above(
             candles, indicator_one, indicator_two, idx - 1
         ):
